@@ -738,6 +738,7 @@ def run(prog, run):
     rule_saved_markup(prog, run)
     rule_offset_no_wrap(prog, run)
     rule_integer_fixpoint(prog, run)
+    rule_presence_checks(prog, run)
 
     r5 = run.rule('C02.R5', 'parsers terminate on sibling lists: every loop guarded by isNull() of a local DOM node advances that node on every path back to '
                             'the loop head (continue included)', floor=18)
@@ -1046,3 +1047,59 @@ def rule_integer_fixpoint(prog, run):
             run.violation(rid, key, f.loc(i), msg)
     else:
         run.ok(rid, 'src', 'no narrowing / sign-changing text conversion among the parse functions')
+
+
+# --------------------------------------------------------------------------- R15: element checks do not insist on what the writer may omit
+def rule_presence_checks(prog, run):
+    rid = run.rule('C02.R15', 'an element-type check (static bool isX(const QDomElement &)) that insists on the mere presence of an attribute (hasAttribute) belongs to a class whose '
+                              'writer emits that attribute unconditionally: where the writer omits an empty value (writeOptionalXmlAttribute), an element with the attribute present '
+                              'but empty is accepted, written back without it and then no longer recognised - one parse/serialize pass is not a fix-point', floor=2)
+    n = 0
+    for g in prog.fns.values():
+        if g.entry is None or g.is_lambda or '/src/base/' not in g.file or g.raw.get('dependent') or not g.record or len(g.params) != 1 or 'QDomElement' not in (g.params[0].get('t') or ''):
+            continue
+        if (g.raw.get('ret') or '') != 'bool' or not g.name.startswith('is'):
+            continue
+        needs = []
+        par = g.parents()
+        for i, c in g.calls():
+            if (g.cname(c) or '') == 'QDomElement::hasAttribute' and c.get('args') and g.strval(c['args'][0]):
+                # "insists": the test is part of a returned value, or its negation leads straight to "return false" - not a presence test that merely guards a
+                # validation of the value (if (has) { if (!valid) return false; })
+                up, neg, in_ret = par.get(i), False, False
+                while up is not None and g.nodes[up]['k'] in ('un', 'bin', 'paren', 'icast', 'cast', 'ret'):
+                    if g.nodes[up]['k'] == 'un' and g.nodes[up].get('op') == '!':
+                        neg = not neg
+                    if g.nodes[up]['k'] == 'ret':
+                        in_ret = True
+                    up = par.get(up)
+                leads_to_false = False
+                if neg and not in_ret:
+                    for b in g.blocks.values():
+                        t = b.get('term')
+                        if t and t.get('cond') is not None and i in set(g.walk(t['cond'])) and b['succs'] and b['succs'][0] is not None:
+                            leads_to_false = any(g.nodes[e]['k'] == 'ret' and 'e' in g.nodes[e] and g.const_value(g.nodes[e]['e']) == ('bool', False) for e in g.blocks[b['succs'][0]]['elems'])
+                if in_ret or leads_to_false:
+                    needs.append((i, g.strval(c['args'][0])))
+        if not needs:
+            continue
+        T = g.record
+        writers = [w for w in prog.fns.values() if w.entry is not None and not w.is_lambda and any('QXmlStreamWriter' in (p_.get('t') or '') for p_ in w.params)
+                   and (w.record == T or (w.record or '').startswith(T.split('<')[0]) or (T.startswith(w.record or '#') and w.record))]
+        if not writers:
+            continue
+        for i, name in needs:
+            n += 1
+            run.instance(rid)
+            optional = [(w, j) for w in writers for j, c in w.calls() if (w.cname(c) or '') == 'QXmpp::Private::writeOptionalXmlAttribute' and len(c.get('args', [])) > 1
+                        and w.strval(c['args'][1]) == name]
+            always = [(w, j) for w in writers for j, c in w.calls() if (w.cname(c) or '') == 'QXmlStreamWriter::writeAttribute' and c.get('args') and w.strval(c['args'][0]) == name]
+            if optional and not always:
+                w, j = optional[0]
+                run.violation(rid, '%s#presence-of:%s' % (g.qname, name), g.loc(i),
+                              '%s insists on the presence of the attribute "%s", which %s writes only when its value is not empty: <... %s=""/> is accepted, loses the attribute '
+                              'when written back, and is not recognised on the next pass' % (g.qname, name, w.qname, name))
+            else:
+                run.ok(rid, g.loc(i), '%s: "%s" is %s' % (g.qname.split('::')[-1], name, 'always written' if always else 'not written through the optional helper'), nontrivial=bool(always))
+    if n < 2:
+        raise AnalysisBroken('C02.R15: element checks with attribute-presence tests not found')
